@@ -25,6 +25,7 @@ PY = os.environ.get("VERIF_PY", "/venv/bin/python")
 JAR = "/opt/veriftools/tla/tla2tools.jar"
 CMJAR = "/opt/veriftools/tla/CommunityModules-deps.jar"
 NCPU = int(os.environ.get("VERIF_CPUS", "0")) or os.cpu_count() or 4
+_T0 = time.time()     # wall time of a check is measured from the import of this module
 
 
 class MachineryError(Exception):
@@ -343,7 +344,7 @@ class Verdict(object):
     def __init__(self, prop, tier):
         self.prop = prop
         self.tier = tier
-        self.t0 = time.time()
+        self.t0 = _T0
         self.violations = []     # dicts: signature, what, replay
         self.known_hit = {}      # signature -> count
         self.known = {k["signature"]: k for k in load_known()
